@@ -86,10 +86,10 @@ struct Big {
 static void scenario(int nworkers, int njobs, const int *kinds, int stopmode) {
     int64_t *s = vrt_scratch();
     {
-        cocls::future<int> gate[2];
-        cocls::promise<int> gate_p[2];
-        std::unique_ptr<cocls::future<int>> res[2];
-        bool settled_by_future[2] = {false, false};
+        cocls::future<int> gate[3];
+        cocls::promise<int> gate_p[3];
+        std::unique_ptr<cocls::future<int>> res[3];
+        bool settled_by_future[3] = {false, false, false};
         bool settled_early = false;
         auto settle = [&] {
         // by now every job must be settled or about to be (a self-detached worker may still be finishing its job)
@@ -212,6 +212,7 @@ static void scenario(int nworkers, int njobs, const int *kinds, int stopmode) {
         }
         res[0].reset();
         res[1].reset();
+        res[2].reset();
         int ran = 0, canc = 0;
         for (int i = 0; i < njobs; i++) {
             ran += (int)s[S_RAN + i];
@@ -341,7 +342,7 @@ VRT_REGISTER(reg_pool) {
             for (int a = 0; a < K_NK; a++) {
                 std::string name = std::string("pool_w") + std::to_string(w) + "_" + kind_names[a] + "_" + stop_names[st];
                 vrt::add(name, [=] {
-                    int k[2] = {a, 0};
+                    int k[3] = {a, 0, 0};
                     scenario(w, 1, k, st);
                 });
             }
@@ -349,11 +350,23 @@ VRT_REGISTER(reg_pool) {
                 for (int b = a; b < K_NK; b++) {
                     std::string name = std::string("pool_w") + std::to_string(w) + "_" + kind_names[a] + "-" + kind_names[b] + "_" + stop_names[st];
                     vrt::add(name, [=] {
-                        int k[2] = {a, b};
+                        int k[3] = {a, b, 0};
                         scenario(w, 2, k, st);
                     });
                 }
         }
+    // three submissions
+    static const int triples[][3] = {{K_COAWAIT, K_RUNFN, K_DETACHED}, {K_COAWAIT, K_COAWAIT, K_COAWAIT}, {K_RUNFN_BIG, K_DETACHED_BIG, K_CURRENT}, {K_RUNFN, K_RUNFN, K_DETACHED}};
+    for (int w = 1; w <= 3; w++)
+        for (int st : {ST_STOP, ST_SELF, ST_RACE})
+            for (auto &t : triples) {
+                std::string name = std::string("pool3_w") + std::to_string(w) + "_" + kind_names[t[0]] + "-" + kind_names[t[1]] + "-" + kind_names[t[2]] + "_" + stop_names[st];
+                int a = t[0], b = t[1], c = t[2];
+                vrt::add(name, [=] {
+                    int k[3] = {a, b, c};
+                    scenario(w, 3, k, st);
+                });
+            }
 }
 
 }  // namespace
